@@ -4,6 +4,9 @@ func init() {
 	reg("C06", propCfg{Pkg: "./props/c06", Rule: "algebraic laws over generated pairs plus reference values where the statement defines them",
 		Assumptions: assume(
 			"a decimal numeral is ^[+-]?[0-9]+(\\.[0-9]+)?([eE][+-]?[0-9]+)?$; it denotes an int64 when it is an integer numeral in range, otherwise the float64 strconv.ParseFloat returns",
-			"no reference value (laws only) for: a bool on exactly one side, a container against a non-nil primitive, containers differing only between leaves of different types, hex/binary/underscore/Inf/NaN/space-padded/partial numeral spellings, integer numerals outside int64, float numerals that overflow or underflow",
+			"no reference value (laws only) for: a bool on exactly one side, a container against a non-nil primitive, containers differing only between leaves of different types, hex/binary/underscore/Inf/NaN/partial numeral spellings, integer numerals outside int64, float numerals that overflow or underflow",
+			"a decimal numeral with white space around it: unequal to every number the numeral itself is defined unequal to (true under the strict reading 'such a string is no numeral' and under the lenient one 'it denotes what the numeral denotes'); no reference value where the numeral itself equals the number",
+			"'two values of the same primitive type' covers every Go primitive numeric type a script can hold (float32, int8..int, uint8..uint64): two operands of ONE such type are equal exactly when Go's == on the two values says so; operands of two different such types: laws only",
+			"pointers, functions, structs, arrays, channels, complex numbers, values of named types, typed containers, errors: laws only ('for every pair of values'), no reference value",
 			"slices and maps are of different structure (never equal); map literals are equal regardless of the order the keys were written in")})
 }
